@@ -140,19 +140,41 @@ public:
       return;
     started_ = true;
     std::thread([this] {
+      // The window counts seconds WITHOUT LOGICAL PROGRESS, not seconds since the operation began: as long as
+      // the history's logical clock keeps advancing (some thread still produces boundary events) the run is
+      // merely slow - e.g. on an oversubscribed machine - and the window restarts.  A deadlock, a lost wake-up
+      // or a livelock inside the SDK produces no boundary events at all.
+      uint64_t last_clock = 0, last_change = now_ms();
       for (;;)
       {
         usleep(100 * 1000);
         uint64_t dl = deadline_ms_.load(std::memory_order_relaxed);
-        if (dl != 0 && now_ms() > dl)
+        if (dl == 0)
+        {
+          last_change = now_ms();
+          continue;
+        }
+        uint64_t armed_at = armed_ms_.load(std::memory_order_relaxed);
+        uint64_t c        = EventLog::clock().load(std::memory_order_relaxed);
+        uint64_t now      = now_ms();
+        if (c != last_clock || last_change < armed_at)
+        {
+          last_clock  = c;
+          last_change = now;
+        }
+        uint64_t window_ms = 1000ull * window_s_.load(std::memory_order_relaxed);
+        // second condition: an absolute backstop of 20 windows
+        if (now - last_change > window_ms || now - armed_at > 20 * window_ms)
         {
           std::string op;
           {
             std::lock_guard<std::mutex> g(mu_);
             op = op_;
           }
-          report().violation("hang", op, "operation did not complete within the watchdog window (" +
-                                             std::to_string(window_s_.load(std::memory_order_relaxed)) + " s); blocked operation: " + op);
+          report().violation("hang", op,
+                             "no logical progress for " + std::to_string((now - last_change) / 1000) + " s (window " +
+                                 std::to_string(window_ms / 1000) + " s, " + std::to_string((now - armed_at) / 1000) +
+                                 " s since the operation began); blocked operation: " + op);
           report().write_result(false);
           fflush(nullptr);
           _exit(70);
@@ -167,6 +189,7 @@ public:
       op_ = op;
     }
     window_s_.store(seconds, std::memory_order_relaxed);
+    armed_ms_.store(now_ms(), std::memory_order_relaxed);
     deadline_ms_.store(now_ms() + 1000ull * seconds, std::memory_order_relaxed);
   }
   void disarm() { deadline_ms_.store(0, std::memory_order_relaxed); }
@@ -183,6 +206,7 @@ private:
   std::string op_;
   raw_atomic<unsigned> window_s_{0};
   raw_atomic<uint64_t> deadline_ms_{0};
+  raw_atomic<uint64_t> armed_ms_{0};
 };
 
 struct WatchdogScope
